@@ -24,6 +24,16 @@ line break with indentation, and holds comments with probability `p_lam_cmt` per
 blank, sometimes line breaks (1–3) with indentation, sometimes empty — but only in front of `(` `[` `{`
 `"`: `x:y`, `x:1`, `x:./p`, `x:/*c*/` … are ONE uri token — and holds comments only with probability
 `p_lam_body_cmt` (0 by default: the model does not cover those).
+With probability `p_bin` an expression position of depth > 0 holds a chain of one to three binary operators
+`E OP E [OP E [OP E]]` (`//` `++` `+` `==` `&&` `||` mostly, now and then `-` `*` `/` `!=` `<` `<=` `>` `>=`
+`->`; at most one of `==` `!=` and one of `<` `<=` `>` `>=` per chain, which Nix itself reads as
+non-associative). The operands are application-level expressions (leaf / select, parenthesis, application,
+list, set; a unary `!a` / `-a` bare only as the left-most operand); the chain is bare where a bare
+application is (top level, binding value, parenthesis, head / body of `with` / `assert`, body of a lambda)
+and parenthesised elsewhere. Both gaps of an operator hold at least one whitespace character (`a-b`, `a/b`,
+`a//b`, `<a>`, `a->b`, `/*` … are other tokens): mostly one blank, a line break with indentation in front of
+the operator (15%) and / or behind it (15%), and with probability `p_bin_cmt` per operator comments in one
+of the two gaps (the model does not cover those).
 Never starts with whitespace.
 Small by construction (py-tree-sitter 0.26 crashes beyond ~250 lines)."""
 from __future__ import annotations
@@ -43,6 +53,10 @@ SEL_GAPS = [""] * 9 + [" ", "\n", "\n  ", "\n    "]
 LAM_NAMES = ["x", "x", "y", "self", "super", "args", "final", "prev", "_"]   # no keyword
 LAM_G1 = [""] * 14 + [" ", " ", " ", " ", "  ", "\n  "]
 LAM_G2 = [" "] * 12 + ["", "", "", "  ", "\n", "\n  ", "\n  ", "\n    ", "\n\n  ", "\n\n\n  "]
+BIN_OPS = (["//"] * 5 + ["++"] * 5 + ["+"] * 5 + ["=="] * 4 + ["&&"] * 4 + ["||"] * 4
+           + ["-", "*", "/", "!=", "<", "<=", ">", ">=", "->", "->"])
+BIN_NONASSOC = [("==", "!="), ("<", "<=", ">", ">=")]
+BIN_NL = ["\n  ", "\n  ", "\n    ", "\n", "\n      "]
 WS = (" ", "\t", "\n")
 # tree-sitter-nix quirk: in the trivia run that follows a `./…` / `../…` / `~/…` path, two block comments
 # with nothing between them (`*//*`) are a syntax error; such documents are not generated
@@ -52,7 +66,7 @@ PATH_QUIRK = re.compile(r"(?:nix|~/h)(?:\s|#[^\n]*\n|/\*.*?\*/)*?/\*.*?\*//\*")
 class FragGen:
     def __init__(self, rng: random.Random, p_cmt: float, p_inner: float, p_kw: float = 0.25, p_kw_cmt: float = 0.4,
                  p_sel: float = 0.22, p_sel_cmt: float = 0.15, p_lam: float = 0.13, p_lam_cmt: float = 0.1,
-                 p_lam_body_cmt: float = 0.0):
+                 p_lam_body_cmt: float = 0.0, p_bin: float = 0.17, p_bin_cmt: float = 0.08):
         """`p_kw`: probability that a `with` / `assert` node may have comments in its three inner gaps;
         `p_kw_cmt`: comment density (as for `gap`) in the inner gaps of such a node;
         `p_sel`: probability that a leaf position (or the function of an application) holds a select;
@@ -60,12 +74,15 @@ class FragGen:
         `p_lam`: probability that an expression position of depth > 0 holds a lambda;
         `p_lam_cmt`: probability that a lambda has comments between its name and the `:`;
         `p_lam_body_cmt`: probability that a lambda has comments between the `:` and its body.
+        `p_bin`: probability that an expression position of depth > 0 holds a chain of binary operators;
+        `p_bin_cmt`: probability that a binary operator has comments in one of its two gaps.
         `self.sels` counts the selects written (what the CST of the text must hold as `D` / `O` nodes),
-        `self.lams` the lambdas (`F1` nodes)"""
+        `self.lams` the lambdas (`F1` nodes), `self.bins` the binary operators (`B` nodes)"""
         self.rng, self.p_cmt, self.p_inner, self.n = rng, p_cmt, p_inner, 0
         self.p_kw, self.p_kw_cmt = p_kw, p_kw_cmt
         self.p_sel, self.p_sel_cmt, self.sels = p_sel, p_sel_cmt, 0
         self.p_lam, self.p_lam_cmt, self.p_lam_body_cmt, self.lams = p_lam, p_lam_cmt, p_lam_body_cmt, 0
+        self.p_bin, self.p_bin_cmt, self.bins = p_bin, p_bin_cmt, 0
 
     def comment(self):
         self.n += 1
@@ -186,6 +203,47 @@ class FragGen:
             g += " "
         return op + g + b
 
+    def operand(self, depth: int, first: bool) -> str:
+        """operand of a binary operator: an application-level expression"""
+        r = self.rng.random()
+        if depth <= 0 or r < 0.5:
+            return self.leaf(depth)
+        if r < 0.62:
+            return self.paren(depth)
+        if r < 0.78:
+            return self.app(depth)
+        if r < 0.86:
+            return self.lst(depth)
+        if r < 0.94:
+            return self.attrset(depth)
+        # `a + -b`, `a && !b` … : precedence surprises; bare only in front
+        return self.unary(depth - 1) if first else "(" + self.unary(depth - 1) + ")"
+
+    def bin_gap(self, p_nl: float, cmt: bool) -> str:
+        """gap on one side of a binary operator: starts and ends with whitespace"""
+        if cmt:
+            g = self._cmt_run(SEPS)
+            return g if g.endswith(WS) else g + " "
+        return self.rng.choice(BIN_NL) if self.rng.random() < p_nl else self.rng.choice([" "] * 9 + ["  "])
+
+    def binary(self, depth: int) -> str:
+        """E OP E [OP E [OP E]]; tree-sitter decides how the operators nest"""
+        s = self.operand(depth - 1, True)
+        used = set()
+        for _ in range(self.rng.choice([1, 1, 1, 1, 2, 2, 3])):
+            while True:
+                op = self.rng.choice(BIN_OPS)
+                cls = next((c for c in BIN_NONASSOC if op in c), None)
+                if cls is None or cls not in used:
+                    break
+            if cls is not None:
+                used.add(cls)
+            self.bins += 1
+            side = self.rng.choice([1, 2]) if self.rng.random() < self.p_bin_cmt else 0
+            s += self.bin_gap(0.15, side == 1) + op + self.bin_gap(0.15, side == 2)
+            s += self.operand(depth - 1, False)
+        return s
+
     def select(self, depth: int) -> str:
         """BASE g1 `.` gd a₁.a₂.….aₙ; BASE a single token, or (depth > 0) a parenthesis / list / set"""
         self.sels += 1
@@ -246,6 +304,9 @@ class FragGen:
         if depth > 0 and self.rng.random() < 0.07:
             # a unary operator binds looser than application and select
             return self.unary(depth - 1) if ctx in ("top", "value", "paren", "head", "body") else "(" + self.unary(depth - 1) + ")"
+        if depth > 0 and self.rng.random() < self.p_bin:
+            # binary operators bind looser than application and select: bare where a bare application is
+            return self.binary(depth) if ctx in ("top", "value", "paren", "head", "body") else "(" + self.binary(depth) + ")"
         r = self.rng.random()
         if depth <= 0 or r < 0.2:
             return self.leaf(depth)
@@ -327,12 +388,20 @@ def programs_counted(rng: random.Random, n: int):
 def programs_tallied(rng: random.Random, n: int):
     """as `programs`, yielding (text, number of selects written, number of lambdas written); lambdas
     may have comments in front of their `:` with probability 0 / 0.1 / 0.2 (by document)"""
+    for t, sels, lams, _ in programs_tallied4(rng, n):
+        yield t, sels, lams
+
+
+def programs_tallied4(rng: random.Random, n: int):
+    """as `programs_tallied`, yielding (text, selects, lambdas, binary operators written); binary operators
+    may have comments in one of their gaps with probability 0 / 0.08 / 0.16 (by document)"""
     made = 0
     while made < n:
         g = FragGen(rng, rng.choice([0.0, 0.2, 0.5]), rng.choice([0.0, 0.0, 0.3]), rng.choice([0.0, 0.25, 0.5]),
-                    p_sel_cmt=rng.choice([0.0, 0.15, 0.3]), p_lam_cmt=rng.choice([0.0, 0.1, 0.2]))
+                    p_sel_cmt=rng.choice([0.0, 0.15, 0.3]), p_lam_cmt=rng.choice([0.0, 0.1, 0.2]),
+                    p_bin_cmt=rng.choice([0.0, 0.08, 0.16]))
         t = g.file(rng.randint(0, 4))
         if t.count("\n") > 150 or t[:1] in WS or PATH_QUIRK.search(t):
             continue
         made += 1
-        yield t, g.sels, g.lams
+        yield t, g.sels, g.lams, g.bins
